@@ -12,7 +12,7 @@ from __future__ import annotations
 import itertools
 import time
 
-from .. import core, hbfs, ilv, ilvrun
+from .. import core, hbfs, ilv, ilvrun, tlabind
 
 PROPERTY = "C27"
 LEVEL = "model_checking"
@@ -79,6 +79,7 @@ class H:
         self.name = f"refcount|pre={pre}|" + "||".join(",".join(p) for p in progs)
         self.sig = "refcount"
         self.focus = ilv.focus_files("disposable/refcountdisposable.py")
+        self.sync_log = True  # lock acquisitions per function, for the trace-inclusion binding to RefCount.tla
 
     def setup(self, run):
         from reactivex.disposable import RefCountDisposable
@@ -93,6 +94,8 @@ class H:
                 me = ilv.cur()
                 st["release_in"].append(cur_call.get(me.tid))
                 run.log("underlying-dispose")
+                if run.sync_log is not None:
+                    run.sync_log.append((me.tid, "ud", 0, "harness"))
 
         st["r"] = RefCountDisposable(Under())
         st["shared"] = None
@@ -147,6 +150,9 @@ class H:
         st = x.state
         if x.outcome != "quiescent":
             return []
+        if getattr(self, "part", None) is not None and not getattr(x, "_bound", False):
+            x._bound = True
+            bind(self.part, x)
         calls = st["calls"]
         n = len(calls)
         if st["n"] > 1:
@@ -182,6 +188,48 @@ class H:
         return []
 
 
+GRAPH = None
+LABEL = {
+    "RefCountDisposable.dispose": "PDLock",
+    "RefCountDisposable.disposable": "Get",
+    "RefCountDisposable.InnerDisposable.dispose": "InnerLock",
+    "RefCountDisposable.release": "RelLock",
+}
+BIND_T, BIND_D = 4, 3
+
+
+def project(x):
+    """Implementation trace -> model labels (None if the execution is outside the bound configuration)."""
+    names, labels, gets = {}, [], 0
+    for (tid, kind, _obj, where) in x.sync_log or ():
+        if kind == "ud":
+            lab = "UD"
+        elif kind == "acq" and where in LABEL:
+            lab = LABEL[where]
+        else:
+            continue
+        if tid not in names:
+            names[tid] = len(names) + 1
+        gets += lab == "Get"
+        labels.append(f"{lab}({names[tid]})")
+    if len(names) > BIND_T or gets > BIND_D:
+        return None
+    return labels
+
+
+def bind(part, x):
+    if GRAPH is None:
+        return
+    labels = project(x)
+    if labels is None:
+        part.count("tla_outside_bound_config")
+        return
+    ok, at = GRAPH.accepts(labels, lambda l: l.startswith(("PDStart", "RelPre")))
+    part.count("tla_traces_accepted" if ok else "tla_traces_rejected")
+    if not ok and len(part.notes) < 3:
+        part.notes.append(f"RefCount.tla rejects implementation trace {labels} at position {at} (model/code structure mismatch; verdict rests on the direct oracle)")
+
+
 def harnesses(tier):
     progs = PROGS_Q if tier == "quick" else PROGS_T
     hs = []
@@ -202,11 +250,19 @@ def bound(tier, h):
     return 2
 
 
-def e3_shard(part, shard, nshards, tier, seed, deadline):
+def e3_shard(part, shard, nshards, tier, seed, deadline, dot_path=None):
+    global GRAPH
     ilv.install()
+    if dot_path and GRAPH is None:
+        GRAPH = tlabind.Graph(open(dot_path).read())
     for i, h in enumerate(harnesses(tier)):
         if i % nshards == shard:
+            h.part = part
             ilvrun.explore_all(part, [h], 0, 1, bound(tier, h), 0, deadline)
+    if GRAPH is not None:
+        for e in GRAPH.used:
+            part.counters["tla_edge:%x" % core.h64(e)] = 1
+        GRAPH.used = set()
 
 
 class W:
@@ -273,8 +329,48 @@ def run(ctx):
     ctx.bounds = {"e2_depth": 6 if ctx.tier == "quick" else 9, "e3": "2-3 threads, PB 1" if ctx.tier == "quick" else "2-3 threads, PB 2"}
     ctx.assumptions = ["preemption at lock operations and at line boundaries of refcountdisposable.py only (GIL-atomic lines)"]
     ctx.sharded(e2_shard, nshards=1)
-    ctx.sharded(e3_shard, nshards=len(harnesses(ctx.tier)))
-    ilvrun.finish_cov(ctx, ctx.total, ctx.total.counters.get("bfs_states", 0), ctx.total.counters.get("bfs_transitions", 0))
+    # E4: TLC over all interleavings of the abstract model, then the labelled graph of the small configuration for binding
+    import os
+    import tempfile
+
+    T, D = (3, 3) if ctx.tier == "quick" else (3, 4)
+    cfg = tempfile.NamedTemporaryFile("w", suffix=".cfg", dir=tlabind.TLA_DIR, delete=False)
+    cfg.write(f"CONSTANTS T = {T}\n          D = {D}\nINIT Init\nNEXT Next\nINVARIANTS TypeOK AtMostOnce OnlyAfterAll DecidedOnlyAfterAll CountIsLive ReleasedAtQuiescence\n")
+    cfg.close()
+    dot_file = None
+    try:
+        ver = tlabind.tlc_run("RefCount.tla", os.path.basename(cfg.name), workers=max(1, min(8, ctx.workers)))
+        bnd = tlabind.tlc_run("RefCount.tla", "RefCount_bind.cfg", dump=True)
+    finally:
+        os.unlink(cfg.name)
+    model_edges = 0
+    if bnd["dot"]:
+        g = tlabind.Graph(bnd["dot"])
+        model_edges = g.nedges
+        f = tempfile.NamedTemporaryFile("w", suffix=".dot", delete=False)
+        f.write(bnd["dot"])
+        f.close()
+        dot_file = f.name
+    if not ver["ok"]:
+        ctx.total.violation("tla|RefCount.tla-invariant-violated", "TLC reports an invariant violation in RefCount.tla (the abstract model, not the code): " + ver["tail"][-600:], {"mode": "tla"})
+    try:
+        ctx.sharded(e3_shard, extra=(dot_file,), nshards=len(harnesses(ctx.tier)))
+    finally:
+        if dot_file:
+            os.unlink(dot_file)
+    ilvrun.finish_cov(ctx, ctx.total, ctx.total.counters.get("bfs_states", 0) + ver["distinct"], ctx.total.counters.get("bfs_transitions", 0) + ver["states_generated"])
+    edges = [k for k in ctx.total.counters if k.startswith("tla_edge:")]
+    acc, rej = ctx.total.counters.get("tla_traces_accepted", 0), ctx.total.counters.get("tla_traces_rejected", 0)
+    ctx.cov["tla"] = {
+        "model": "vf/tla/RefCount.tla", "tlc_config": f"T={T} threads, D={D} dependents, unbounded operation order", "tlc_ok": ver["ok"],
+        "tlc_distinct_states": ver["distinct"], "tlc_states_generated": ver["states_generated"], "tlc_depth": ver["depth"],
+        "binding_config": "T=4, D=3", "binding_graph_states": bnd["distinct"], "binding_graph_edges": model_edges,
+        "impl_traces_accepted": acc, "impl_traces_rejected": rej, "impl_traces_outside_binding_config": ctx.total.counters.get("tla_outside_bound_config", 0),
+        "model_edges_exercised_by_impl_traces": len(edges), "model_bound": bool(acc and not rej),
+    }
+    for k in edges:
+        del ctx.total.counters[k]
+    ctx.cov["traces_validated_against_impl"] = ctx.cov.get("traces_validated_against_impl", 0)
 
 
 def replay(case):
